@@ -23,6 +23,7 @@ Mapping of Python outcomes to protocol answers (documented here as CODEC_PROTOCO
 import importlib
 import json
 import math
+import os
 import struct
 import sys
 import warnings
@@ -74,6 +75,24 @@ def get_cls(path):
 _FMAX = {16: 65504.0, 32: 3.4028234663852886e38, 64: 1.7976931348623157e308}
 
 
+NDARRAY = os.environ.get("CODEC_PY_NDARRAY") == "1"
+
+
+def _as_ndarray(el, out):
+    """CODEC_PY_NDARRAY=1: primitive arrays reach the generated setter as ndarrays of exactly the field's dtype (the
+    setters' zero-copy fast path), not as lists (their copying slow path)."""
+    k = el["k"]
+    if k == "u":
+        return np.array(out, dtype=getattr(np, "uint%d" % _storage_bits(el["n"])))
+    if k == "i":
+        return np.array(out, dtype=getattr(np, "int%d" % _storage_bits(el["n"])))
+    if k == "b":
+        return np.array(out, dtype=np.bool_)
+    if k == "f":
+        return np.array(out, dtype=getattr(np, "float%d" % el["n"]))
+    return out
+
+
 def _storage_bits(n):
     return 8 if n <= 8 else 16 if n <= 16 else 32 if n <= 32 else 64
 
@@ -116,7 +135,7 @@ def build(node, toks, pos, in_array=False):
         pos += 1
         if k == "l" and len(out) > node["cap"]:
             raise BadLength(out)
-        return out, pos
+        return (_as_ndarray(node["el"], out) if NDARRAY else out), pos
     if k == "s":
         assert toks[pos] == "{"
         pos += 1
@@ -147,7 +166,7 @@ def build_unchecked(node, toks, pos, in_array=False):
         while toks[pos] != "]":
             x, pos = build_unchecked(node["el"], toks, pos, in_array=True)
             out.append(x)
-        return out, pos + 1
+        return (_as_ndarray(node["el"], out) if NDARRAY else out), pos + 1
     if k == "s":
         pos += 1
         kw = {}
